@@ -67,6 +67,7 @@ def setup():
                              opt=w.get("opt", "-O1"), sanitize=w.get("sanitize", True), name=w["name"]))
     jobs.append(dict(source="cq_run.cpp", name="cq_run"))
     jobs.append(dict(source="cq_run.cpp", name=props_conc.RUNNER_HQ["name"], defines=props_conc.RUNNER_HQ["defines"]))
+    jobs.append(dict(source="cq_run.cpp", name=props_conc.RUNNER_OQ["name"], defines=props_conc.RUNNER_OQ["defines"]))
     for r in props_conc.RUNNERS_CC + props_conc.RUNNERS_HC:
         jobs.append(dict(source=r["source"], defines=r["defines"], name=r["name"]))
     for r in props_conc.STRESS_CC + props_conc.STRESS_CQ:
@@ -165,7 +166,22 @@ def _c02_dispatcher(tier, seed):
             "assumptions": props_dq.ASSUME}
 
 
-COMPOSITE = {"C10": [_c10_plan, _c10_lists], "C16": [props_dq.c16, props_het.c16h], "C12": [props_dq.c12, props_het.c12h]}
+def _c01_dispatcher_helpers(tier, seed):
+    # C01's helpers also come in a dispatcher / queue form (eventutil.h: removeListener / hasListener / hasAnyListener(dispatcher, event, callback))
+    quick = tier == "quick"
+    ops = {"al", "pl", "il", "rl", "ol", "hl", "dp"}
+    return {"interp": "harness/dq_interp.cpp", "trace_module": "TraceDQ",
+            "models": [{"module": "DQImpl", "tag": "helpers-dispatcher", "invariants": props_dq.INV,
+                        "constants": props_dq.consts(events=(1, 2), nodes=3 if quick else 4, enq=0, disp=1, depth=2, ops=ops, nest={"rl", "ol", "hl"})}],
+            "worlds": [props_dq.world("u_disp_cb", obj=0, threading=0, callback=1, util=1),
+                       props_dq.world("u_queue_cb_str_multi", obj=1, threading=1, key=1, callback=1, util=1, fraction=0.5, fill="0xFF")],
+            "nontrivial_key": "scripts",
+            "rule": "every transition of the bounded DQImpl model restricted to listener management over two events, with removeListener / ownsHandle / "
+                    "hasAnyListener executed through the eventutil.h helpers that search by callback value (also from inside listeners)",
+            "assumptions": props_dq.ASSUME}
+
+
+COMPOSITE = {"C01": [lambda tier, seed: props_cl.c01(tier, seed), _c01_dispatcher_helpers], "C10": [_c10_plan, _c10_lists], "C16": [props_dq.c16, props_het.c16h], "C12": [props_dq.c12, props_het.c12h]}
 COMPOSITE["C02"] = [lambda tier, seed: props_cl.c02(tier, seed), _c02_dispatcher]
 def _c08_lists(tier, seed):
     quick = tier == "quick"
